@@ -452,6 +452,23 @@ class Conv:
             if inner and self.tolerant:
                 return self.expr(inner[0])
             raise Unsupported("default arg")
+        if k == "LambdaExpr":
+            # the closure's call operator: parameters and body (captures are by name: the body refers to the enclosing
+            # function's variables directly)
+            for rec in n.get("inner", []):
+                if rec.get("kind") != "CXXRecordDecl":
+                    continue
+                for m in rec.get("inner", []):
+                    if m.get("kind") == "CXXMethodDecl" and m.get("name") == "operator()":
+                        params, body = [], None
+                        for c in m.get("inner", []):
+                            if c.get("kind") == "ParmVarDecl":
+                                params.append([c.get("name", "_p%d" % len(params)), map_type(c["type"])])
+                            elif c.get("kind") == "CompoundStmt":
+                                body = c
+                        if body is not None:
+                            return ["lambda", params, self.block(body), ty]
+            raise Unsupported("lambda without a call operator body")
         if k == "UnaryExprOrTypeTraitExpr":
             if n.get("name") == "sizeof":
                 at = n.get("argType")
